@@ -196,6 +196,25 @@ func genC05(r *Rand, thor bool) C05Case {
 		}
 	}
 	k.Layers = r.Range(1, 10)
+	switch r.Intn(12) {
+	case 0:
+		k.Layers = r.Pick(11, 12, 16, 20, 33, 100)
+	case 1:
+		// many layers: blocks first included in a very late layer (tag-tree values >= 999)
+		k.Layers = r.Pick(999, 1000, 1001, 2000, 5000)
+		if r.Intn(3) != 0 {
+			k.F.Cols, k.F.Rows = r.Range(1, 16), r.Range(1, 16)
+		} else if k.F.Cols*k.F.Rows > 64*64 {
+			k.F.Cols, k.F.Rows = 64, r.Range(1, 64)
+		}
+	case 2:
+		// ladder that is not descending (any RateLevels value is in the property's domain)
+		n := r.Range(2, 6)
+		k.RateLevels = nil
+		for i := 0; i < n; i++ {
+			k.RateLevels = append(k.RateLevels, r.Pick(5, 10, 20, 30, 40, 80, 160, 640, r.Range(1, 1500)))
+		}
+	}
 	if path == 3 {
 		k.Layers = 1
 	}
